@@ -79,6 +79,18 @@ def header_exceeds_lookahead(init, ms):
     return False
 
 
+def dec_answer(ans):
+    """decoded bytes of a DEC / DECG answer, None when the decoder refused (or the answer is not a
+    well-formed one, e.g. the tool died: that is a refusal too, never a crash of the check)"""
+    t = ans.split()
+    if not t or t[0] != "OK":
+        return None
+    try:
+        return unhx(t[1]) if len(t) > 1 else b""
+    except ValueError:
+        return None
+
+
 def enc_pool(run, tools, thorough):
     rng = run.rng
     cs = contents(rng, thorough)
@@ -352,7 +364,7 @@ def check(run):
     selfd = tools.impl(["DECG " + hx(p["bytes"]) for p in pool])
     keep = []
     for p, d in zip(pool, selfd):
-        if d.startswith("OK") and unhx(d.split()[1] if len(d.split()) > 1 else "-") == p["content"]:
+        if dec_answer(d) == p["content"]:
             keep.append(p)
     if len(keep) != len(pool):
         run.note("dropped %d generated members that do not decode to their content on their own (generator problem)" % (len(pool) - len(keep)))
@@ -407,8 +419,7 @@ def check(run):
         if p["final"] != "0":
             why = "final result %s instead of Success" % final_name(p["final"])
         else:
-            gd = unhx(g.split()[1]) if g.startswith("OK") and len(g.split()) > 1 else (b"" if g.startswith("OK") else None)
-            rd = unhx(d.split()[1]) if d.startswith("OK") and len(d.split()) > 1 else (b"" if d.startswith("OK") else None)
+            gd, rd = dec_answer(g), dec_answer(d)
             if gd is None:
                 why = "libbrotlidec rejects the concatenation"
             elif gd != want:
@@ -508,7 +519,7 @@ def _spec(tools, case, prof):
     g = tools.impl(["DECG " + hx(a["out"])], prof)[0]
     d = tools.impl(["DEC " + hx(a["out"])], prof)[0]
     print("decoders: libbrotlidec %s | brotli-decompressor %s" % (g[:60], d[:60]))
-    gd = unhx(g.split()[1]) if g.startswith("OK") and len(g.split()) > 1 else (b"" if g.startswith("OK") else None)
+    gd = dec_answer(g)
     if gd != want:
         return "FAIL the output does not decode to the concatenated contents"
     s = tools.model(["CSPEC %s %s" % (case["init"], " ".join(case["members_hex"]))])[0]
